@@ -159,22 +159,24 @@ fn c10_jobs(thorough: bool) -> Vec<Job> {
     if thorough {
         for cw20 in [false, true] {
             for tpw in [1u128, 2, 3] {
-                for mb in [0u128, 1, 2, 5] {
-                    for period in [hp, tp] {
-                        // enough funds to cross min_bond and a weight step; the donor gives once
-                        let f1 = std::cmp::max(3, std::cmp::max(mb, tpw) + 1);
-                        let bond = if mb >= 5 { vec![1, 2, 3, 5] } else { vec![1, 2, 3] };
-                        out.push(mk(cw20, tpw, mb, period, [f1, 2, 1], bond, vec![0, 1, 2, 3], 4, true, "closed", None));
+                for period in [hp, tp] {
+                    for mb in [0u128, 1, 2] {
+                        out.push(mk(cw20, tpw, mb, period, [3, 1, 1], vec![1, 2, 3], vec![0, 1, 2, 3], 4, true, "closed", None));
                     }
+                    // a minimum bond above one weight unit: more funds, coarser amounts
+                    out.push(mk(cw20, tpw, 5, period, [6, 1, 0], vec![2, 3, 5], vec![0, 1, 3], 4, true, "closed", None));
                 }
             }
         }
+        // two larger closed systems: both stakers with several tokens and a donor
+        out.push(mk(false, 1, 1, hp, [3, 2, 1], vec![1, 2, 3], vec![0, 1, 2, 3], 4, true, "closed", None));
+        out.push(mk(true, 2, 2, tp, [3, 2, 1], vec![1, 2, 3], vec![0, 1, 2, 3], 4, true, "closed", None));
     } else {
         out.push(mk(false, 1, 0, hp, [3, 1, 1], vec![1, 2, 3], vec![0, 1, 2, 3], 4, true, "closed", None));
         out.push(mk(false, 2, 2, tp, [3, 2, 0], vec![1, 2, 3], vec![1, 2, 3], 4, true, "closed", None));
         out.push(mk(true, 1, 1, hp, [3, 1, 1], vec![1, 2, 3], vec![0, 1, 2, 3], 4, true, "closed", None));
         out.push(mk(true, 3, 2, tp, [4, 1, 0], vec![1, 2, 3], vec![0, 1, 3], 4, true, "closed", None));
-        out.push(mk(false, 3, 5, hp, [6, 1, 0], vec![2, 3, 5], vec![1, 3], 4, false, "closed", None));
+        out.push(mk(false, 3, 5, hp, [6, 1, 0], vec![2, 3, 5], vec![0, 1, 3], 4, true, "closed", None));
     }
     // boundary stakes: quotients around 2^64 and amounts around 2^128
     let p64: u128 = 1 << 64;
